@@ -16,6 +16,7 @@
 //	tick      n            Node.Tick()  (queued; handled by the next step)
 //	deliver   n m          Node.Step(message m) for a message addressed to n (queued)
 //	drop      m            remove message m from the network
+//	gc        m            remove every message with id < m from the network (bulk loss)
 //	propose   n p          Node.Propose(8-byte big-endian payload id p)
 //	conf      n cc x       Node.ProposeConfChange(cc ∈ addnode|addlearner|remove|update, replica x);
 //	                       if x was never started, addnode/addlearner also boots x in join mode
